@@ -32,8 +32,9 @@ def gen(rng, tier):
     if big:
         n = 2000
     ins = []
+    mostly_ok = n >= 19 and rng.random() < 0.7     # many inputs: let them all succeed most of the time
     for i in range(n):
-        ins.append({"end": rng.choice(["val", "val", "val", "val", "exc", "cancel", "never"]) if not big else "val",
+        ins.append({"end": rng.choice(["val", "val", "val", "val", "exc", "cancel", "never"]) if not (big or mostly_ok) else "val",
                     "at": rng.choice([None, 0, 0, 0.05, 0.1]), "by": rng.randrange(3),
                     "lib": (not big) and rng.random() < 0.2, "cerr": (not big) and rng.random() < 0.15, "falsy_exc": (not big) and rng.random() < 0.12})
     spec = {"comb": comb, "ins": ins, "dup": (rng.randrange(n), rng.randrange(n)) if n >= 2 and rng.random() < 0.2 and not big else None,
